@@ -7,7 +7,7 @@ THEOREMS = [
     "XcmModel.C14.foldl_addAttr_spec", "XcmModel.C14.C14_getall_bounded", "XcmModel.C14.C14_key_never_disclosed",
     "XcmModel.C14.C14_reply_equals_inprocess", "XcmModel.C14.C14_getall_equals_inprocess",
     "XcmModel.C14.C14_first_request_any", "XcmModel.C14.C14_malformed_dropped", "XcmModel.C14.C14_name_within_field",
-    "XcmModel.C14.C14_sessions_bounded",
+    "XcmModel.C14.C14_sessions_bounded", "XcmModel.C14.C14_remove_keeps_sessions_apart",
 ]
 
 
@@ -47,7 +47,14 @@ def run(ctx):
         shutil.copy(crt, os.path.join(sand, "cert.pem"))
         shutil.copy(key, os.path.join(sand, "key.pem"))
         shutil.copy(os.path.join(d, "ca.pem"), os.path.join(sand, "tc.pem"))
-    env = dict(sysattr.env(ctx), XCM_CTL=ctl, VERIF_SANDIR=sand)
+    ecd = os.path.join(d, "ec")
+    os.makedirs(ecd, exist_ok=True)
+    if not os.path.exists(os.path.join(ecd, "cert.pem")):
+        crt, key = pki.make_leaf(ecd, "ecleaf", os.path.join(d, "ca.pem"), os.path.join(d, "ca-key.pem"), cn="ec-leaf", ec=True)
+        shutil.copy(crt, os.path.join(ecd, "cert.pem"))
+        shutil.copy(key, os.path.join(ecd, "key.pem"))
+        shutil.copy(os.path.join(d, "ca.pem"), os.path.join(ecd, "tc.pem"))
+    env = dict(sysattr.env(ctx), XCM_CTL=ctl, VERIF_SANDIR=sand, VERIF_ECDIR=ecd)
     ctx.rule = ("sys_ctl: live sockets (server, client, accepted) of every transport with their control interfaces; a raw "
                 "SEQPACKET client sends, each on a fresh session: get-all as FIRST request, get of existing / non-existent / "
                 "tls.key / oversize attributes, a name field without NUL, unknown and reply type numbers, short and empty "
@@ -63,7 +70,7 @@ def run(ctx):
     for proto in sysattr.PROTOS:
         scenarios.append((proto, ""))
     scenarios = [x for x in scenarios if x[0] != "utls"]     # utls delegates its control interface to its sub-sockets (ux / tls)
-    scenarios += [("tls", "byvalue"), ("btls", "byvalue"), ("tls", "manysan")]
+    scenarios += [("tls", "byvalue"), ("btls", "byvalue"), ("tls", "manysan"), ("tls", "byvalue-ec")]
     for proto, extra in scenarios:
         cmds = ["E %s %s" % (proto, extra) if extra else "E " + proto]
         for s in ("server", "client", "accepted"):
@@ -73,7 +80,7 @@ def run(ctx):
                 cmds.append("Q %s get %s" % (s, hx(nm)))
         cmds += ["Q client unterminated " + hx("xcm.type"), "Q accepted unterminated " + hx("b" * 64),
                  "Q client get2 " + hx("xcm.type"), "Q client badtype -", "Q accepted cfmtype -", "Q server short -",
-                 "Q client empty -", "Q accepted hangup -", "M client 5", "M server 3",
+                 "Q client empty -", "Q accepted hangup -", "M client 5", "M server 3", "MIX client", "MIX accepted",
                  "L client " + hx("xcm.transport"), "L accepted ALL", "L server ALL", "L client " + hx("tls.key"),
                  "D %d" % (30 if quick else 300), "Q client getall -", "X"]
         rc, out, err = common.run_proc([exe], "\n".join(cmds) + "\n", env=env, timeout=300)
@@ -133,6 +140,12 @@ def run(ctx):
                 conn, ans, after = [int(x.split("=")[1]) for x in l.split()[1:]]
                 if ans > 2 or after != 1:
                     ctx.violation("sys_ctl:monitor:sessions", "session handling: %s" % l, rep)
+            elif w[0] == "MIX":
+                f = dict(x.split("=") for x in l.split()[1:])
+                if f["unsolicited"] != "0" or f["answered"] != "1" or f["matches"] != "1":
+                    ctx.violation("sys_ctl:monitor:session-mixup",
+                                  "two simultaneous control sessions: after the flooding session hung up, the idle session got an "
+                                  "unsolicited or foreign reply (%s)" % l, rep)
             elif w[0] == "L":
                 if " | inproc " not in l:
                     continue
